@@ -787,8 +787,8 @@ class _Run:
                 return
             self.viol('C13.exception', f"a String Parameter overriding K{ci}.{q} (inherited default {self.gov(ci, q)[1].default!r}) was accepted")
         elif k == 'poison':
-            # a class-level watcher vetoes a value (after looking at the namespace): the rejected class-level assignment must
-            # leave nothing behind - in particular no copied Parameter in the namespace cache of an inheriting subclass
+            # a class-level watcher raises (after looking at the namespace) when it hears of the value: the assignment itself
+            # stands, and the namespaces must describe the Parameter that now governs the class
             if 'v' not in self.visible(ci):
                 return
             if not self.veto_installed:
@@ -812,10 +812,8 @@ class _Run:
                 self.out.stats['reject.class_level_veto'] += 1
                 if any(c in self.cache_read for c in range(nc)):
                     self.probe['stale_risk'] = True
-                if kk == ci:
-                    pm.default = 'POISON'       # the class owns the Parameter: the value was stored before the watcher raised
-                return
-            # nobody vetoed (e.g. the class owns a Parameter created after the watcher was installed): a plain class-level set
+                # the value was stored before the watcher raised: the assignment stands (on the class owning the Parameter and on
+                # an inheriting class, which now owns a copy), exactly as when nobody vetoes
             if kk != ci:
                 self.own[ci]['v'] = pm.clone(deep_attrs=True)
                 pm = self.own[ci]['v']
